@@ -29,6 +29,7 @@ var (
 )
 
 type walker struct {
+	opaque    map[int]bool // defs whose type has a custom unmarshaller (not measured, `.any` in the model)
 	defs      []ldef
 	types     []reflect.Type
 	index     map[reflect.Type]int
@@ -36,7 +37,7 @@ type walker struct {
 }
 
 func newWalker() *walker {
-	return &walker{index: map[reflect.Type]int{}, fieldKeys: map[reflect.Type]map[string]string{}}
+	return &walker{index: map[reflect.Type]int{}, fieldKeys: map[reflect.Type]map[string]string{}, opaque: map[int]bool{}}
 }
 
 func typeName(t reflect.Type) string {
@@ -64,8 +65,9 @@ func (w *walker) def(t reflect.Type) int {
 	if t.Kind() != reflect.Struct {
 		refuse("def on non-struct %s", t)
 	}
-	if customDecoding(t) {
-		refuse("type %s has a custom YAML/text unmarshaller: its keys cannot be read off the struct", t)
+	custom := customDecoding(t)
+	if custom && len(w.defs) == 0 {
+		refuse("root type %s has a custom YAML/text unmarshaller", t)
 	}
 	if t.PkgPath() == "time" {
 		refuse("time.%s is special-cased by yaml.v3", t.Name())
@@ -74,6 +76,14 @@ func (w *walker) def(t reflect.Type) int {
 	w.index[t] = i
 	w.defs = append(w.defs, ldef{Name: typeName(t)})
 	w.types = append(w.types, t)
+	if custom {
+		// What this type accepts is decided by its UnmarshalYAML/UnmarshalText, not by the struct:
+		// yaml.v3 hands the node over (and a nested node.Decode does NOT inherit KnownFields).
+		// The model sees `.any` (so the bisimilarity obligation fails against a closed published
+		// object); the fields are still walked so that the harness can build documents for it.
+		w.opaque[i] = true
+		softRefuse("type %s has a custom YAML/text unmarshaller: its keys cannot be read off the struct (modelled as free-form `any`)", t)
+	}
 	fields, inl, direct := w.structInfo(t, map[reflect.Type]bool{})
 	sort.Slice(fields, func(a, b int) bool { return fields[a].Key < fields[b].Key })
 	w.defs[i].Fields = fields
@@ -180,7 +190,11 @@ func (w *walker) ty(t reflect.Type) lty {
 	case reflect.Ptr:
 		return w.ty(t.Elem())
 	case reflect.Struct:
-		return lty{K: "ref", Ref: w.def(t)}
+		d := w.def(t)
+		if w.opaque[d] {
+			return lty{K: "opaque", Ref: d}
+		}
+		return lty{K: "ref", Ref: d}
 	case reflect.Slice, reflect.Array:
 		if t.Elem().Kind() == reflect.Uint8 {
 			refuse("byte slices are decoded from !!binary scalars; not modelled (%s)", t)
